@@ -1,5 +1,6 @@
 # -*- coding: utf-8 -*-
 
+import math
 import re
 from typing import Any
 
@@ -150,7 +151,8 @@ def _scalar_node_from_value(
             else:
                 # Only when nothing is lost: "02134" or "1e3" are strings
                 # that would come back as "2134.0" and "1000.0".
-                if str(fl) == scalar_value:
+                # ("inf" and "nan" are no number literals at all.)
+                if math.isfinite(fl) and str(fl) == scalar_value:
                     return _ast.FloatValue(value=scalar_value)
 
         return _ast.StringValue(value=scalar_value)
